@@ -135,6 +135,25 @@ def gen_pairs(tier: str) -> Iterator[dict]:
                 yield case
 
 
+def gen_triples(tier: str) -> Iterator[dict]:
+    """Three assignments in a row (thorough): every order of type classes the first declared type can hold."""
+    if tier != "thorough":
+        return
+    reps = {"int": ["int_lit", "int_expr"], "float": ["float_expr", "div"], "bool": ["bool_expr"], "str": ["str_expr"]}
+    scopes = ["top", "if", "for", "loop"]
+    for c1, c2, c3 in itertools.product(reps, repeat=3):
+        if not (can_hold(c1, c2) and can_hold(c1, c3)):
+            continue
+        for s1, s2, s3 in itertools.product(reps[c1], reps[c2], reps[c3]):
+            for sc in itertools.product(scopes, repeat=3):
+                order = [x.startswith("loop") for x in sc]
+                if order != sorted(order):
+                    continue
+                case = build([(s1, sc[0]), (s2, sc[1]), (s3, sc[2])], "t")
+                case.update(id=f"A3:{s1}@{sc[0]}>{s2}@{sc[1]}>{s3}@{sc[2]}", space="A")
+                yield case
+
+
 ARGS = {"int": ["3", "a"], "float": ["2.5", "a * 0.5"], "bool": ["True"], "str": ['"q"']}
 
 
@@ -182,6 +201,82 @@ def gen_returns(tier: str) -> Iterator[dict]:
         yield {"id": f"R3:{'|'.join(combo)}", "space": "R", "src": common.script(HEAD + body, None, prologue=PRO, defs=fn), "runs": [{"passes": 0, "ar": {"A0": [2]}}]}
 
 
+# ---- H: helpers with two parameters: every ordered pair of call signatures x bodies that are sensitive to the
+# parameter's type (floor division, re-binding the parameter to a wider value, joins of both parameters)
+H_BODIES = {
+    "floor": ["return (p // 4) * q"],
+    "div": ["return p / q"],
+    "rebind_div": ["p = p / q", "return p"],
+    "rebind_aug": ["p /= q", "return p"],
+    "rebind_add": ["p = p + 0.5", "return p * q"],
+    "rebind_q": ["q = q * 0.5", "return p + q"],
+    "local": ["r = p * q", "return r"],
+    "local_div": ["r = p / 2", "r = r + q", "return r"],
+    "cond": ["if p > q:", "    return p", "return q"],
+    "loop_acc": ["s = p", "for i in range(2):", "    s = s + p", "return s * q"],
+    "nested": ["return inner(p) + q"],
+}
+H_INNER = ["def inner(x):", "    x = x / 2", "    return x"]
+H_ARGS = {"quick": [("int", "7"), ("float", "2.5"), ("int", "a")], "thorough": [("int", "7"), ("float", "2.5"), ("int", "a"), ("float", "a * 0.5"), ("bool", "True")]}
+
+
+def gen_helpers(tier: str) -> Iterator[dict]:
+    args = H_ARGS[tier]
+    sigs = list(itertools.product(args, repeat=2))
+    for bname, body in H_BODIES.items():
+        fn = H_INNER + ["def f(p, q):"] + common.indent(body)
+        for s1, s2 in itertools.product(sigs, repeat=2):
+            if bname == "loop_acc" and "bool" in (s1[0][0], s2[0][0]):
+                continue  # `s = p` declares a bool that later takes an int: first-assignment-wins (known finding)
+            c1 = f"f({s1[0][1]}, {s1[1][1]})"
+            c2 = f"f({s2[0][1]}, {s2[1][1]})"
+            # float // follows C on the device (known finding of C01): such a call is made (it creates
+            # the helper variant for its signature) but only calls with an int first argument are observed
+            ok1 = bname != "floor" or s1[0][0] == "int"
+            ok2 = bname != "floor" or s2[0][0] == "int"
+            lines = [f"r1 = {c1}"] + (["mon.write(r1)", "mon.write(r1 + 0.25)"] if ok1 else []) + [f"r2 = {c2}"] + (["mon.write(r2)", "mon.write(r2 + 0.25)"] if ok2 else [])
+            if ok1 and ok2:
+                lines.append(f"mon.write({c1} + {c2})")
+            for placement in (("setup", "loop") if tier == "thorough" else ("setup",)):
+                src = common.script(HEAD + lines, None, prologue=PRO, defs=fn) if placement == "setup" else common.script(HEAD, lines, prologue=PRO, defs=fn)
+                yield {"id": f"H:{bname}:{c1}|{c2}:{placement}", "space": "H", "src": src, "runs": [{"passes": 1 if placement == "loop" else 0, "ar": {"A0": [6]}}]}
+
+
+# ---- N: a typed name is reused by a construct that has its own scope in Python (comprehension variable, helper
+# parameter, helper local, loop variable of a helper): the outer name keeps its type and value
+N_OUTER = {"float_lit": ("0.25", "float"), "float_expr": ("a * 0.5", "float"), "int_expr": ("a + 1", "int"), "bool_expr": ("a > 2", "bool"), "str_lit": ('"s"', "str")}
+N_SHADOW = {
+    "comp": ([], ["sq = [t * 2 for t in range(3)]", "mon.write(sq[2])"]),
+    "comp_sq": ([], ["sq = [t * t + 1 for t in range(1, 4)]", "mon.write(sq[1])"]),
+    "comp_in_helper": (["def h(t):", "    sq = [t + 1 for t in range(3)]", "    return sq[1]"], ["mon.write(h(4))"]),
+    "param": (["def h(t):", "    return t * 2"], ["mon.write(h(4))"]),
+    "param_float": (["def h(t):", "    return t * 2"], ["mon.write(h(1.5))"]),
+    "helper_local": (["def h(p):", "    t = p + 1", "    return t"], ["mon.write(h(4))"]),
+    "helper_for": (["def h(p):", "    s = 0", "    for t in range(p):", "        s = s + t", "    return s"], ["mon.write(h(4))"]),
+}
+
+
+def gen_names(tier: str) -> Iterator[dict]:
+    for (oname, (oexpr, cls)), (sname, (defs, use)) in itertools.product(N_OUTER.items(), N_SHADOW.items()):
+        for placement in ("setup", "loop", "split"):
+            after = observers("t", cls, "n")
+            if cls in ("int", "float"):
+                after += ["period = t * 3", "mon.write(period)", "mon.write(idf(t))"]
+            first = [f"t = {oexpr}"]
+            if placement == "setup":
+                src = common.script(HEAD + first + use + after, ["mon.write(t)"], prologue=PRO, defs=HELPERS + defs)
+            elif placement == "loop":
+                src = common.script(HEAD, first + use + after, prologue=PRO, defs=HELPERS + defs)
+            else:
+                src = common.script(HEAD + first, use + after, prologue=PRO, defs=HELPERS + defs)
+            yield {"id": f"N:{oname}:{sname}:{placement}", "space": "N", "src": src, "runs": [{"passes": 2, "ar": {"A0": [a]}} for a in (3, 6)]}
+        # the same inside a helper: the typed name is the helper's parameter
+        if cls in ("int", "float") and sname.startswith("comp") and sname != "comp_in_helper":
+            fn = ["def g(t):"] + common.indent(use[:1]) + ["    span = t * 3", "    return span + sq[1]"]
+            src = common.script(HEAD + [f"w = g({oexpr})", "mon.write(w)", "mon.write(w + 0.25)"], None, prologue=PRO, defs=HELPERS + fn)
+            yield {"id": f"N:{oname}:{sname}:in_helper", "space": "N", "src": src, "runs": [{"passes": 0, "ar": {"A0": [a]}} for a in (3, 6)]}
+
+
 def judge(case, tr, dev_runs, host_runs):
     from rmc.pipeline import default_judge
 
@@ -196,10 +291,15 @@ def generate(tier: str, only=None) -> Iterator[dict]:
     if not only or "A" in only:
         yield from gen_single(tier)
         yield from gen_pairs(tier)
+        yield from gen_triples(tier)
     if not only or "P" in only:
         yield from gen_params(tier)
     if not only or "R" in only:
         yield from gen_returns(tier)
+    if not only or "H" in only:
+        yield from gen_helpers(tier)
+    if not only or "N" in only:
+        yield from gen_names(tier)
 
 
 def main(tier: str, seed: int, only=None) -> int:
